@@ -365,13 +365,16 @@ pub enum Recipe {
     Saturated,
     /// like Saturated but reached by random removals and refills: displaced elements, interleaved tombstones
     SaturatedRandom,
+    /// a randomly drawn control-byte layout (runs of FULL / DELETED / EMPTY, displaced elements), see `layout_plan`
+    Layout,
     Tombstoned,
     GrownThenShrunk,
     Drained,
     Churned,
 }
-pub const RECIPES: [Recipe; 12] = [
+pub const RECIPES: [Recipe; 13] = [
     Recipe::SaturatedRandom,
+    Recipe::Layout,
     Recipe::Fresh,
     Recipe::WithCapacity,
     Recipe::Small,
@@ -396,6 +399,8 @@ pub struct Spec {
 impl Spec {
     pub fn random(rng: &mut Rng, recipe: Recipe) -> Spec {
         let plan = match recipe {
+            // a layout is realised through position = id
+            Recipe::Layout => *rng.pick(&[Plan::Ident, Plan::Ident, Plan::IdentOneTag]),
             Recipe::Saturated | Recipe::SaturatedRandom | Recipe::Tombstoned if rng.chance(3, 4) => {
                 *rng.pick(&[Plan::Ident, Plan::IdentOneTag, Plan::Zero, Plan::SamePos, Plan::Palette(1, 3), Plan::Palette(3, 1), Plan::Palette(4, 4), Plan::Stride, Plan::Tail, Plan::Max])
             }
@@ -406,6 +411,73 @@ impl Spec {
     pub fn describe(&self) -> String {
         format!("{:?}/{}", self.recipe, self.plan.name())
     }
+}
+
+/// A randomly drawn control-byte layout for a table of 2^lg buckets that is filled to exactly its
+/// capacity and then thinned: `inserts` (in order) put one element into every slot that is to be
+/// non-EMPTY — some of them displaced by up to 15 slots from their home position — and `deletes`
+/// then turn runs of them into tombstones. Requires a plan whose position bits are the id.
+pub struct LayoutPlan {
+    pub lg: u32,
+    pub capacity: usize,
+    pub inserts: Vec<u32>,
+    pub deletes: Vec<u32>,
+}
+
+pub fn layout_plan(rng: &mut Rng, id_space: u32) -> LayoutPlan {
+    let lg = *rng.pick(&[5u32, 6, 6, 7]);
+    let buckets = 1usize << lg;
+    let cap = buckets / 8 * 7;
+    let mask = buckets - 1;
+    // sequence of slot kinds starting after an EMPTY gap: 0 empty, 1 full, 2 to-be-deleted
+    let mut kinds: Vec<u8> = Vec::with_capacity(buckets);
+    let mut empties = buckets - cap;
+    let mut nonempty = cap;
+    let first_gap = 1 + rng.usize_below(empties.min(4));
+    kinds.extend(std::iter::repeat(0).take(first_gap));
+    empties -= first_gap;
+    let p_del = *rng.pick(&[30u64, 50, 60, 75]);
+    while nonempty > 0 {
+        let len = (*rng.pick(&[1usize, 2, 3, 5, 8, 15, 16, 17, 20, 33])).min(nonempty);
+        let kind = if rng.below(100) < p_del { 2 } else { 1 };
+        kinds.extend(std::iter::repeat(kind).take(len));
+        nonempty -= len;
+        if empties > 0 && nonempty > 0 && rng.chance(1, 4) {
+            let g = 1 + rng.usize_below(empties.min(3));
+            kinds.extend(std::iter::repeat(0).take(g));
+            empties -= g;
+        }
+    }
+    kinds.extend(std::iter::repeat(0).take(empties));
+    kinds.truncate(buckets);
+    let start = rng.usize_below(buckets);
+    let mut inserts = Vec::new();
+    let mut deletes = Vec::new();
+    let mut run_start = 0usize;
+    let mut serial = 0u32;
+    let usable = (id_space as usize / buckets).max(1) as u32;
+    for i in 0..kinds.len() {
+        if kinds[i] == 0 {
+            run_start = i + 1;
+            continue;
+        }
+        // home: this slot, or (one time in four) an earlier slot of the same non-empty region, at most 15 back
+        let back = if rng.chance(1, 4) { rng.usize_below((i - run_start).min(15) + 1) } else { 0 };
+        let home = (start + i - back) & mask;
+        serial += 1;
+        let id = (home as u32).wrapping_add((serial % usable) * buckets as u32) % id_space.max(1);
+        if inserts.contains(&id) {
+            continue;
+        }
+        inserts.push(id);
+        if kinds[i] == 2 {
+            deletes.push(id);
+        }
+    }
+    for i in (1..deletes.len()).rev() {
+        deletes.swap(i, rng.usize_below(i + 1));
+    }
+    LayoutPlan { lg, capacity: cap, inserts, deletes }
 }
 
 /// Builds a collection in the state the recipe describes; deterministic in `spec`.
@@ -513,6 +585,17 @@ pub fn build<C: Coll>(spec: &Spec) -> C {
                     next += 1;
                     guard += 1;
                 }
+            }
+            c
+        }
+        Recipe::Layout => {
+            let lp = layout_plan(&mut rng, space);
+            let mut c = C::with_cap(bh, lp.capacity);
+            for id in &lp.inserts {
+                c.put(*id, g());
+            }
+            for id in &lp.deletes {
+                c.del(*id);
             }
             c
         }
